@@ -139,6 +139,7 @@ type run struct {
 	win     *window
 	evsw    gtypes.EventSwitch
 	aborted bool
+	drifted bool
 	// oracle state (independent of the model)
 	committed map[txid]bool
 	resub     map[txid]bool
@@ -694,7 +695,10 @@ func (r *run) step(si int, st mbt.Step, model bool) {
 	want := wantOf(st.Post)
 	if ks := mbt.DiffKeys(mbt.Norm(want).(map[string]interface{}), mbt.Canon(got).(map[string]interface{})); len(ks) > 0 {
 		r.fail(si, label, "mismatch", false, "state:"+ks[0], fmt.Sprintf("pool state differs from the specification on %v", ks), want, got)
-		r.aborted = true
+		// internal drift is not a verdict: the behaviour is played to its end with the model comparison switched off, so
+		// that the model-independent oracles (no committed transaction offered again, bounds, consecutive nonces ...)
+		// can show the observable consequence, if there is one
+		r.drifted = true
 		return
 	}
 	// GetPendingMaxNonce against the specification's formula, evaluated on the specification state
@@ -744,7 +748,7 @@ func (r *run) runTrace() {
 		r.repMu.Lock()
 		r.rep.Steps++
 		r.repMu.Unlock()
-		r.step(si, st, model)
+		r.step(si, st, model && !r.drifted)
 	}
 	if e := r.closeWindow(); e != "" && !r.aborted {
 		r.fail(len(r.tr.Steps), "OnCommit", "panic", true, "panic:OnCommit", e, nil, nil)
